@@ -23,6 +23,20 @@ from furax.operators import (
 )
 
 
+def _cos_sin_2angles(angles: Float[Array, '...'], like: Array) -> tuple[Array, Array]:
+    """Returns cos and sin of twice the angles, in the dtype of the data they multiply.
+
+    Angles wider than the data (float64 pointing of float32 maps) would otherwise promote Q and U
+    beyond the declared structure: the transpose would then reject the operator's own output.
+    """
+    cos_2angles = jnp.cos(2 * angles)
+    sin_2angles = jnp.sin(2 * angles)
+    if jnp.issubdtype(like.dtype, jnp.inexact):
+        cos_2angles = cos_2angles.astype(like.dtype)
+        sin_2angles = sin_2angles.astype(like.dtype)
+    return cos_2angles, sin_2angles
+
+
 @orthogonal
 class QURotationOperator(AbstractLinearOperator):
     """Operator for QU rotations.
@@ -49,8 +63,7 @@ class QURotationOperator(AbstractLinearOperator):
         if isinstance(x, StokesIPyTree):
             return x
 
-        cos_2angles = jnp.cos(2 * self.angles)
-        sin_2angles = jnp.sin(2 * self.angles)
+        cos_2angles, sin_2angles = _cos_sin_2angles(self.angles, x.q)
         q = x.q * cos_2angles - x.u * sin_2angles
         u = x.q * sin_2angles + x.u * cos_2angles
 
@@ -76,8 +89,7 @@ class QURotationTransposeOperator(AbstractLazyInverseOrthogonalOperator):
         if isinstance(x, StokesIPyTree):
             return x
 
-        cos_2angles = jnp.cos(2 * self.operator.angles)
-        sin_2angles = jnp.sin(2 * self.operator.angles)
+        cos_2angles, sin_2angles = _cos_sin_2angles(self.operator.angles, x.q)
         q = x.q * cos_2angles + x.u * sin_2angles
         u = -x.q * sin_2angles + x.u * cos_2angles
 
